@@ -15,6 +15,7 @@ ValsT(ty) == CASE ty = "u8"    -> {FV(TRUE, 7, <<>>, <<>>), FV(TRUE, 200, <<>>, 
                [] ty \in TextTys  -> {FV(TRUE, 0, <<>>, <<>>), FV(TRUE, 0, <<97, 98>>, <<>>)}
                [] ty \in BytesTys -> {FV(TRUE, 0, <<>>, <<>>), FV(TRUE, 0, <<1, 2>>, <<>>)}
                [] ty = "cu"    -> {FV(TRUE, 5, <<>>, <<>>)}
+               [] ty = "any"   -> { FV(TRUE, k, <<>>, <<>>) : k \in 1..Len(AnyItems) }
                [] ty \in {"inA", "inM"} -> {FV(TRUE, 0, <<>>, <<FV(TRUE, 7, <<>>, <<>>), None>>), FV(TRUE, 0, <<>>, <<FV(TRUE, 200, <<>>, <<>>), FV(TRUE, 1, <<>>, <<>>)>>)}
                [] ty = "e2"    -> {FV(TRUE, 0, <<>>, [var |-> 1, fv |-> <<>>]), FV(TRUE, 0, <<>>, [var |-> 2, fv |-> <<FV(TRUE, 9, <<>>, <<>>)>>])}
                [] ty = "e2x"   -> {FV(TRUE, 0, <<>>, [var |-> 1, fv |-> <<>>]), FV(TRUE, 0, <<>>, [var |-> 3, fv |-> <<None, FV(TRUE, 0, <<120>>, <<>>)>>]),
@@ -50,7 +51,7 @@ ThreeFields == { Struct(e, -1, sh, <<F(ix[1], o1, -1, "u8"), F(ix[2], o2, t, "st
 ThreeFieldsQ == { S \in ThreeFields : (S.shape = "tuple" => S.fields[2].tag = -1) /\ (S.fields[1].idx = 1 => S.shape = "named") }
 \* skipped fields, transparent newtypes
 Misc == { Struct(e, -1, "named", <<F(0, FALSE, -1, "u8"), FSkip(1), F(2, TRUE, -1, "str")>>) : e \in Encs }
-        \cup { Transparent(F(0, FALSE, -1, ty)) : ty \in {"u8", "str", "inA", "e2"} }
+        \cup { Transparent(F(0, FALSE, -1, ty)) : ty \in {"u8", "str", "inA", "e2", "cu", "bytes"} }
         \cup { Struct(e, -1, "named", <<F(0, TRUE, 7, "cu"), F(1, TRUE, -1, "cu"), F(3, FALSE, -1, "cu")>>) : e \in Encs }
 \* optional fields that are not spelled Option<T>: boxed, through a type alias, through a type parameter - in structs of both encodings
 \* (as the last field, in the middle, tagged) and inside an enum variant
@@ -61,6 +62,8 @@ OptSpell == { Struct(e, -1, "named", <<F(0, FALSE, -1, "u8"), Fo(1, t, ty, sp), 
                     e \in Encs, ve \in Encs, sp \in {"boxed", "alias"} }
 \* fields that borrow from the decoding input
 Borrowing == { Struct(e, -1, "named", <<F(0, FALSE, -1, "u8"), F(1, o, t, bty)>>) : e \in Encs, o \in BOOLEAN, t \in {-1, 7}, bty \in {"bstr", "bslice", "bu8"} }
+             \cup { Struct(e, -1, sh, <<F(0, FALSE, -1, "cowbu8"), F(1, TRUE, -1, "u8")>>) : e \in Encs, sh \in {"named", "tuple"} }
+             \cup { Enum("array", -1, FALSE, <<Variant(0, ve, -1, "named", <<F(0, FALSE, -1, "cowbu8")>>)>>) : ve \in Encs }
              \cup { Struct(e, -1, sh, <<F(0, FALSE, -1, cty), F(2, TRUE, -1, "bstr")>>) : e \in Encs, sh \in {"named", "tuple"}, cty \in {"cowb", "cown"} }
              \cup { Enum("array", -1, FALSE, <<Variant(0, "array", -1, "unit", <<>>), Variant(1, ve, -1, "named", <<F(0, FALSE, -1, "bstr"), F(1, TRUE, -1, "bslice")>>)>>) : ve \in Encs }
 \* enums: unit / tuple / named variants, encoding at enum and variant level, tags at both levels, index_only
@@ -98,6 +101,9 @@ HostReaders(S) == { SetField(S, 2, [S.fields[2] EXCEPT !.ty = ty]) : ty \in { t 
 PairWriters == IF Tier = "quick" THEN { S \in ThreeFieldsQ : S.shape = "named" /\ S.fields[3].idx \in {2, 5} } \cup EnumHosts ELSE ThreeFieldsQ \cup EnumHosts
 ReadersOf(S) == IF S \in EnumHosts THEN HostReaders(S) ELSE Readers(S) \cup { r2 : r2 \in UNION { Readers(r1) : r1 \in { x \in Readers(S) : Tier # "quick" } } }
 
+\* writers with a field of arbitrary content that the reader does not know: in the middle (a gap / an unknown key) and at the end (surplus)
+AnyWriters == { Struct(e, -1, "named", <<F(0, FALSE, -1, "u8"), F(k, TRUE, -1, "any"), F(5, TRUE, -1, "str")>>) : e \in Encs, k \in {2, 9} }
+AnyReaders(S) == { DropField(S, 2) }
 Init == ph = "fam" /\ wsch = Big("map") /\ wv = <<>> /\ rsch = Big("map")
 Next == \/ ph = "fam" /\ wsch' \in Family /\ ph' = "val" /\ UNCHANGED <<wv, rsch>>
         \/ ph = "fam" /\ wsch' \in {Big("map"), Big("array")} /\ wv' \in BigVals /\ rsch' = wsch' /\ ph' = "done"
@@ -105,6 +111,9 @@ Next == \/ ph = "fam" /\ wsch' \in Family /\ ph' = "val" /\ UNCHANGED <<wv, rsch
         \/ ph = "fam" /\ wsch' \in PairWriters /\ ph' = "pval" /\ UNCHANGED <<wv, rsch>>
         \/ ph = "pval" /\ wv' \in ValsS(wsch) /\ ph' = "pair" /\ UNCHANGED <<wsch, rsch>>
         \/ ph = "pair" /\ rsch' \in ReadersOf(wsch) /\ ph' = "pdone" /\ UNCHANGED <<wsch, wv>>
+        \/ ph = "fam" /\ wsch' \in AnyWriters /\ ph' = "aval" /\ UNCHANGED <<wv, rsch>>
+        \/ ph = "aval" /\ wv' \in ValsS(wsch) /\ ph' = "apair" /\ UNCHANGED <<wsch, rsch>>
+        \/ ph = "apair" /\ rsch' \in AnyReaders(wsch) /\ ph' = "adone" /\ UNCHANGED <<wsch, wv>>
 Case(name, in, exp) == PrintT(<<"CASE", ToJson([fam |-> "derive", name |-> name, in |-> in, exp |-> exp])>>)
 DecExp(w, r, v, b) == LET p == Project(w, r, v) IN
    IF p[1] = "ok" THEN [ok |-> TRUE, val |-> p[2], pos |-> Len(b), bor |-> TRUE] ELSE [ok |-> FALSE, val |-> <<>>, pos |-> 0, bor |-> TRUE]
@@ -133,6 +142,11 @@ Emit == /\ (ph' = "done") =>
         /\ (ph' = "done" /\ wsch'.kind = "enum") =>
              Case("dec", [schema |-> wsch', bytes |-> TagPrefix(wsch'.tag) \o (IF wsch'.index_only THEN Uint(41) ELSE <<130>> \o Uint(41) \o <<128>>), rel |-> "unkvar"],
                   [ok |-> FALSE, val |-> <<>>, pos |-> 0])
+        \* C10: a field unknown to the reader is ignored whatever its content (wide integers, tags, indefinite containers, chunked strings, ...)
+        /\ (ph' = "adone") =>
+             LET b == DocEnc(wsch, wv)  bi == DocEncP(wsch, wv, IndefPt) IN
+             /\ Case("dec", [schema |-> rsch', bytes |-> b, rel |-> "fwdany"], DecExp(wsch, rsch', wv, b))
+             /\ Case("dec", [schema |-> rsch', bytes |-> bi, rel |-> "fwdany"], DecExp(wsch, rsch', wv, bi))
         /\ (ph' = "pdone") =>
              LET b == DocEnc(wsch, wv) IN
              \* forward: the reader rsch' decodes what the writer wsch wrote; backward: wsch decodes what rsch' writes (for values rsch' has)
